@@ -965,6 +965,12 @@ class MasterDriver:
                 or getattr(self, 'master_died', None)
                 or self.cutter is not None and getattr(self.cutter, 'armed', False)):
             return
+        if self.cutter is not None and hasattr(self.cutter, 'mid_command') and self.rng.random() < 0.3:
+            self.interleaving = True
+            try:
+                self.cutter.mid_command(op, path)
+            finally:
+                self.interleaving = False
         if self.rng.random() >= 0.06:
             return
         self.interleaving = True
